@@ -29,8 +29,9 @@ theorem gen_pins (c : Cfg) (m : Msg) (nts : Str) :
     ssdpAll = Gen.C13Server.stAll ∧ rootDevice = Gen.C13Server.stRootDevice
     ∧ ssdpDiscover = Gen.C13Server.discover ∧ okLine = Gen.C13Server.statusLine
     ∧ (responseHeaders c m).map (·.1) = Gen.C13Server.responseKeys
-    ∧ (notifyHeaders c nts m).map (·.1) = Gen.C13Server.notifyKeys := by
-  refine ⟨by decide, by decide, by decide, by decide, rfl, rfl⟩
+    ∧ (notifyHeaders c nts m).map (·.1) = Gen.C13Server.notifyKeys
+    ∧ maxAgeOf Gen.C13Server.cacheControl = 1800000 := by
+  refine ⟨by decide, by decide, by decide, by decide, rfl, rfl, by decide⟩
 
 /-- the source's `_on_data` has the shape the timing theorems need: the delayed send is chosen by
     `delay > 0`, the immediate send is its `else`, `0 ≤ lo`, `0 ≤ off`, `lo + off < 1000`, and the
@@ -441,6 +442,81 @@ theorem c13_ok {k : Consts} (hk : constsOk k = true) {t : DevTree} (hw : wfTree 
   rw [Bool.and_eq_true, Bool.and_eq_true]
   exact ⟨⟨okResponses_run kk w cfg hl target searches ann, okAlives_run cfg target kk w hl searches ann⟩,
     okByebyes_run cfg target w hl searches ann⟩
+
+/-- **what an accepting verdict means** (judge soundness, declarative form): if `ok c` holds for ANY
+    observation `c` (implementation or model) then
+    * no M-SEARCH made the handler raise;
+    * every datagram on the response socket either went to a requester that also sent something that
+      is not an M-SEARCH (unconstrained), or is a `200 OK` without NTS carrying the description URL
+      that some M-SEARCH `s` accounts for: sent to `s`'s requester at a time in `[s.time, s.time + MX]`,
+      realising an entry `e` of the table prescribed for `s`'s target with the USN beginning with
+      `e.dev`, and — when the listener accepts the description URL — reported by the listener as
+      device `e.dev`, type = the message's ST, at the description URL;
+    * every requester that sent only M-SEARCHes received, as a multiset of (folded ST, USN), exactly
+      the union of what its searches prescribe;
+    * every advertisement and byebye carries the description URL, and the byebyes (if stopped) are a
+      permutation of the table -/
+theorem ok_sound (c : CaseObs) (h : ok c = true) :
+    (∀ s ∈ c.searches, isMSearch s.req = true → s.raised = false) ∧
+    (∀ m ∈ c.responses,
+      (∃ s ∈ c.searches, s.requester = m.dest ∧ isMSearch s.req = false) ∨
+      (m.startLine = okLine ∧ m.nts = [] ∧ m.location = c.location ∧
+       ∃ s ∈ c.searches, isMSearch s.req = true ∧ m.dest = s.requester ∧ s.time ≤ m.time ∧
+         m.time ≤ s.time + windowMs s.req.mx ∧
+         ∃ e ∈ (expOf c s).1, normKey (expOf c s).2 e.st e.usn = normKey (expOf c s).2 m.st m.usn ∧
+           startsWith m.usn e.dev = true ∧
+           (validLocation c.location = true →
+             m.heard.accepted = true ∧ m.heard.udn = e.dev ∧ m.heard.location = c.location ∧ m.heard.dst = m.st))) ∧
+    (∀ s ∈ c.searches, (∀ s' ∈ c.searches, s'.requester = s.requester → isMSearch s'.req = true) →
+      ((c.responses.filter (·.dest == s.requester)).map fun m => keyL m.st m.usn).Perm
+        ((c.searches.filter (·.requester == s.requester)).flatMap (expKeysL c))) ∧
+    (∀ m ∈ c.alives ++ c.byebyes, m.location = c.location) ∧
+    (∀ ts, c.stopTime = some ts → (c.byebyes.map keyOf).Perm ((expAll c.tree).map fun e => (e.st, e.usn))) := by
+  simp only [ok, Bool.and_eq_true] at h
+  obtain ⟨⟨hR, hA⟩, hB⟩ := h
+  simp only [okResponses, Bool.and_eq_true, List.all_eq_true] at hR
+  obtain ⟨⟨hr1, hr2⟩, hr3⟩ := hR
+  refine ⟨?_, ?_, ?_, ?_, ?_⟩
+  · intro s hs hm
+    have := hr1 s hs
+    simpa [hm] using this
+  · intro m hm
+    have := hr2 m hm
+    simp only [Bool.or_eq_true, List.any_eq_true, Bool.and_eq_true, beq_iff_eq, Bool.not_eq_true'] at this
+    rcases this with ⟨s, hs, h1, h2⟩ | ⟨⟨⟨h1, h2⟩, h3⟩, s, hs, hacc⟩
+    · exact Or.inl ⟨s, hs, h1, h2⟩
+    · right
+      simp only [accounts, Bool.and_eq_true, beq_iff_eq, decide_eq_true_eq, List.any_eq_true] at hacc
+      obtain ⟨⟨⟨⟨a1, a2⟩, a3⟩, a4⟩, e, he, ⟨a5, a6⟩, a7⟩ := hacc
+      refine ⟨h1, by simpa using h2, h3, s, hs, a1, a2, a3, a4, e, he, a5, a6, ?_⟩
+      intro hv
+      simp only [heardOk, hv, Bool.not_true, Bool.false_or, Bool.and_eq_true, beq_iff_eq] at a7
+      exact ⟨a7.1.1.1.1, a7.1.1.1.2, a7.1.1.2, a7.1.2⟩
+  · intro s hs hall
+    have := hr3 s hs
+    simp only [Bool.or_eq_true, List.any_eq_true, Bool.and_eq_true, beq_iff_eq, Bool.not_eq_true'] at this
+    rcases this with ⟨s', hs', h1, h2⟩ | hq
+    · have := hall s' hs' h1; rw [this] at h2; exact absurd h2 (by simp)
+    · simp only [okRequester, Bool.and_eq_true] at hq
+      have hp := List.isPerm_iff.mp hq.1
+      simpa [List.map_map, Function.comp_def, List.flatMap_map] using hp
+  · intro m hm
+    simp only [okAlives, okByebyes, Bool.and_eq_true, List.all_eq_true] at hA hB
+    rcases List.mem_append.mp hm with hm | hm
+    · have := hA.1.1.1.2 m hm
+      simp only [okNotify, Bool.and_eq_true, beq_iff_eq] at this
+      exact this.1.2
+    · cases hst : c.stopTime with
+      | none => rw [hst] at hB; simp only [List.isEmpty_iff] at hB; rw [hB] at hm; exact absurd hm (by simp)
+      | some ts =>
+        rw [hst] at hB
+        simp only [Bool.and_eq_true, List.all_eq_true] at hB
+        have := (hB.2 m hm).1
+        simp only [okNotify, Bool.and_eq_true, beq_iff_eq] at this
+        exact this.1.2
+  · intro ts hst
+    simp only [okByebyes, hst, Bool.and_eq_true] at hB
+    exact List.isPerm_iff.mp hB.1
 
 /-- C13 for the constants `server.py` has now -/
 theorem c13_ok_gen {t : DevTree} (hw : wfTree t = true) (cfg : Cfg)
